@@ -334,6 +334,8 @@ func process(o *c.Out, k *Case) {
 }
 
 func main() {
+	// the engine's admin port (ENGINE_ADMIN_PORT) is played by the harness: engine.go
+	setupEngine()
 	zerolog.SetGlobalLevel(zerolog.Disabled)
 	if os.Getenv("C15_FIND_WITNESS") != "" {
 		findWitness()
@@ -344,6 +346,7 @@ func main() {
 	o.DeclareSuite("stream", "From Coq Require Import Uint63.\nFrom Verif Require Import C15.Model.", "fcase", "run_flat")
 	o.DeclareSuite("witness", "From Coq Require Import Uint63.\nFrom Verif Require Import C15.Model C15.Witness.", "fcase", "run_witness")
 	o.DeclareSuite("faults", "From Coq Require Import Uint63.\nFrom Verif Require Import C15.Model C15.Faults.", "fcase", "run_faults")
+	o.DeclareSuite("notify", "From Coq Require Import Uint63.\nFrom Verif Require Import C15.Model C15.Faults C15.Notify.", "fcase", "run_notify")
 	o.Rule("random access-log streams of 1-30 records over small URL alphabets (2-6 path parts, depth 1-3, " +
 		"1-3 hosts, split threshold 1-3 so that path-parameter convergence happens mid-stream; some streams with " +
 		"empty path parts, ':::' in a URL, '{id}' parts, declared endpoints, second-aligned stamps), each run " +
@@ -362,15 +365,26 @@ func main() {
 		"beyond U+10FFFF, F5..FF, runs, next to U+FFFD and to well-formed neighbours), both spellings in the " +
 		"same stream with different counts, in any order of arrival, split threshold mostly 50 (no convergence); run unsplit, " +
 		"under every cut with and without a restart at the cut, and with a last restart after the final record; non-trivial " +
-		"there = some restart met two such spellings in memory")
+		"there = some restart met two such spellings in memory. Suite notify (ENGINE_ADMIN_PORT set to a loopback port the harness " +
+		"listens on): streams of 1-10 records with statuses in and around the HAProxy-internal set (400 403 408 409 413 417 500 502 " +
+		"503 504; also internal records with such a status), cut so that a failed transaction shares its flush with ordinary " +
+		"traffic, that flush under every behaviour of the admin port (answers 200 / 404 / 500, refuses the connection, closes it " +
+		"after reading the request, resets it), neighbours up or failing, restart placements, some failing state-file writes, plus " +
+		"random plans of 2-6 flushes; observed after every flush as in suite faults, plus whether the port was contacted; non-trivial " +
+		"= some run has a report that met a transport failure, later traffic and a later restart")
 	var raw json.RawMessage
 	if suite, ok := o.ReplayCase(&raw); ok {
-		if suite == "faults" {
+		if suite == "faults" || suite == "notify" {
 			var fk FaultCase
 			if err := json.Unmarshal(raw, &fk); err != nil {
 				panic(err)
 			}
-			processFaults(o, &fk)
+			if suite == "notify" {
+				processNotify(o, &fk)
+				flushNotifyStats(o)
+			} else {
+				processFaults(o, &fk)
+			}
 		} else {
 			var k Case
 			if err := json.Unmarshal(raw, &k); err != nil {
@@ -431,5 +445,16 @@ func main() {
 		fk := genFaultCase(o, i)
 		processFaults(o, &fk)
 	}
+	// the engine-notification step under every behaviour of the admin port (notify.go)
+	for _, fk := range notifyCorpus() {
+		fk := fk
+		processNotify(o, &fk)
+	}
+	nn := o.Scale(24, 120, 300)
+	for i := 0; i < nn; i++ {
+		fk := genNotifyCase(o, i)
+		processNotify(o, &fk)
+	}
+	flushNotifyStats(o)
 	o.Finish()
 }
